@@ -14,6 +14,7 @@ non-negative weight) and, for routes, `FirstOk g` (`Traverse(p)` yields segments
 * `settled_is_walk_cost`   every recorded distance is the cost of a walk from an origin
 * `route_sound`            `BuildRoute` returns such a walk: a chain of usable segments from an origin to the
                            point, every step carrying the accumulated cost, the last one the recorded distance
+* `build_route_terminates` `BuildRoute` ends within (#settled points + 1) iterations (no back-pointer cycle)
 * `settled_nondecreasing`  points are settled in non-decreasing order of distance
 * `settled_final`          a settled entry is ≤ the cost of every walk, in every state of the search
 * `dijkstra_optimal`       when the queue is empty: every recorded distance is a walk cost and ≤ every walk
@@ -49,6 +50,13 @@ theorem route_sound (hN : NonNeg g) (hF : FirstOk g) {tr : List (P × α)} {t : 
   have hc := (h.inv hN (Inv.init g origins max)).core
   obtain ⟨pre, hpre, hr⟩ := buildRoute_sound hN hF hc n p [] e o steps hp (fun hj => hj.1) hb
   simp at hpre; subst hpre; exact hr
+
+/-- `BuildRoute` terminates for every point, within (number of settled points + 1) iterations: a back-pointer
+always starts at a point that was settled strictly earlier, so the chain cannot cycle. -/
+theorem build_route_terminates (hF : FirstOk g) {tr : List (P × α)} {t : Table P S α}
+    (h : Reach g max (initTable origins) tr t) (p : P) :
+    ∃ r, buildRoute t (tr.length + 1) p [] = some r :=
+  buildRoute_terminates hF h p []
 
 /-- Points are popped (settled) in non-decreasing order of distance; `tr` is most-recent-first. -/
 theorem settled_nondecreasing (hN : NonNeg g) {tr : List (P × α)} {t : Table P S α}
